@@ -1,10 +1,13 @@
 CFG = {
     "gen": [],
-    "props": ["EraVerif.Props.C05"],
+    "props": ["EraVerif.Props.C05", "EraVerif.Props.C05loop"],
     "required_theorems": ["rejected_unchanged", "wf_init", "wf_restart", "wf_preserved", "view_monotone", "hcqc_view_monotone",
                           "htqc_view_monotone", "view_change_justified", "newView_self_justifying", "timeout_self_justifying",
                           "commit_is_high_vote", "justification_prefers_commit_on_tie", "no_panic",
-                          "accepted_proposal_conforms", "reachable_wf", "reachable_step"],
+                          "accepted_proposal_conforms", "reachable_wf", "reachable_step",
+                          "loop_refines_steps", "loop_states_wf", "view0_bootstrap", "no_bootstrap_otherwise", "timer_fires",
+                          "deadline_rule", "message_keeps_deadline", "flood_cannot_postpone", "quiesce_blocks", "accounting",
+                          "every_processed_message_is_acked_once", "dropped_never_acked", "processing_order"],
     "technique": "Lean 4 single-step theorems (every Wf state x every input) on a hand-written executable replica model + "
                  "induction over reachable states; differential run of the real replica (verif hook) against the model",
     "level_text": "Proof (model): for every configuration, every replica state satisfying the representation invariant Wf "
@@ -22,12 +25,16 @@ CFG = {
                   "list (persist/send/notify/queue) and the state snapshot after every step.",
     "level_note": "Model hand-written (Model/Replica.lean), spec transcription trusted. view_monotone needs the explicit no-wrap "
                   "hypothesis (commit/timeout vote view + 1 < 2^64): at view 2^64-1 ViewNumber::next wraps in the release profile "
-                  "(a quorum of votes for that view needs more than f faulty weight). The run loop's dispatch/timer glue "
-                  "(StateMachine::run) is not driven; the handlers are called directly. Leader = round-robin, frequency 1 in the runs "
+                  "(a quorum of votes for that view needs more than f faulty weight). The run loop (StateMachine::run: view-0 bootstrap, recv with the view "
+                  "deadline, dispatch, ack after processing, timer re-armed only by start_new_view/start_timeout) is modelled in "
+                  "Model/RunLoop.lean, proved to be nothing but a sequence of `step` calls from reachable states "
+                  "(loop_refines_steps), and compared with the real loop driven through the real input channel with a manual clock; "
+                  "two scheduling-dependent corners are avoided by the generator (a message pending while the deadline has passed: "
+                  "the real select is unbiased; shutdown with unresolved requests). Leader = round-robin, frequency 1 in the runs "
                   "(leader selection itself is C11). TimeoutQC group order (BTreeMap order by signature bytes) is not modelled; "
                   "assembled certificates are compared as sets of groups.",
-    "harness": "c05",
-    "n": {"quick": 1200, "thorough": 40000},
+    "harness": ["c05", "c05loop"],
+    "n": {"quick": [1200, 3000], "thorough": [40000, 60000]},
     "rule": "adaptive scenarios against one real replica (committees of 2..7, equal and mixed weights, first block 0..3): per step a "
             "random choice among tick / restart / proposal (right or wrong leader, stale..far-future view, each payload shape, "
             "justification commit or timeout of 4 shapes, corruptions) / commit vote (towards a quorum for the replica's own "
